@@ -457,6 +457,146 @@ theorem mrunP_rep {ops : List MOp} {s s' : MState} {m : Links} {head : Nat}
       have h1 := mstepP_rep hi hr hs1 (fun z hz => hh z (mrun_zones hs z hz))
       exact ih (mstep_inv hi hs1) h1.2 hs
 
+/-! ### the stores of a multi-zone history avoid the cells that stay handed out -/
+
+theorem mstep_evs_avoid {s s' : MState} {op : MOp} {r : Option Nat} (hi : MInv s)
+    (hs : mstep s op = some (s', r)) (h8 : ∀ z ∈ s'.zones, 8 ≤ z.elemsz) :
+    ∀ ev ∈ mstepEvs s op, ∀ c ∈ s.live, c ∈ s'.live → ∀ z ∈ s'.zones, InZone z c →
+      ev.Avoids c (c + z.elemsz) := by
+  have hi' := mstep_inv hi hs
+  intro ev hev c hc hc' z hz hzc
+  cases op with
+  | engage b sz e =>
+    simp only [mstep] at hs
+    split at hs
+    · cases hs
+    · split at hs
+      · rename_i hall
+        simp only [Option.some.injEq, Prod.mk.injEq] at hs
+        obtain ⟨rfl, _⟩ := hs
+        have hwz : (⟨b, sz, e⟩ : Zone).WF := hi'.wf _ (by simp)
+        have he8 : 8 ≤ e := h8 ⟨b, sz, e⟩ (by simp)
+        have hsz : sz = sz / e * e := (Nat.div_mul_cancel (Nat.dvd_of_mod_eq_zero hwz.2)).symm
+        -- all stores stay inside the new zone
+        have hin : ev.Inside b (b + sz) := by
+          simp only [mstepEvs] at hev
+          have := engageEvs_inside e b (sz / e) he8 (sz + 1) 0 (Nat.zero_le _)
+          simp only [Nat.zero_mul, Nat.add_zero] at this
+          rw [← hsz] at this
+          exact this ev hev
+        obtain ⟨w, hw, hwc⟩ := hi.facts.2.2.2.1 c (Or.inl hc)
+        have hrw := hwc.range (hi.wf w hw)
+        have hdw := (List.all_eq_true.1 hall) w hw
+        rw [disjoint_iff] at hdw; simp only at hdw
+        have hew := (hi.wf w hw).1
+        rcases List.mem_cons.1 hz with rfl | hz'
+        · -- a cell handed out before cannot be a cell of the new zone
+          have hrz := hzc.range hwz
+          simp only at hrz
+          omega
+        · have hrz := hzc.range (hi.wf z hz')
+          have hdz := (List.all_eq_true.1 hall) z hz'
+          rw [disjoint_iff] at hdz; simp only at hdz
+          exact hin.avoids (by omega)
+      · cases hs
+  | alloc => simp [mstepEvs] at hev
+  | free c0 =>
+    simp only [mstep] at hs
+    split at hs
+    · rename_i hc0
+      simp only [Option.some.injEq, Prod.mk.injEq] at hs
+      obtain ⟨rfl, _⟩ := hs
+      have hc0' : c0 ∈ s.live := by simpa using hc0
+      simp only [mstepEvs, Pool.release, List.mem_singleton] at hev
+      subst hev
+      have hne : c ≠ c0 := ((List.Nodup.mem_erase_iff hi.facts.1).1 hc').1
+      obtain ⟨w, hw, hwc⟩ := hi.facts.2.2.2.1 c0 (Or.inl hc0')
+      have hew := h8 w hw
+      have hdis : c + z.elemsz ≤ c0 ∨ c0 + w.elemsz ≤ c := by
+        rcases zones_eq_or_disjoint hi.disj hz hw with rfl | hd
+        · exact cells_of_one_zone hzc hwc hne
+        · exact cells_of_disjoint_zones (hi.wf z hz) (hi.wf w hw) hd hzc hwc
+      simp only [Ev.Avoids, Ev.lo, Ev.hi]
+      omega
+    · cases hs
+
+/-- a cell that is not freed by the request stays handed out -/
+theorem mstep_keeps_live {s s' : MState} {op : MOp} {r : Option Nat} (hs : mstep s op = some (s', r))
+    {c : Nat} (hc : c ∈ s.live) (hne : op ≠ .free c) : c ∈ s'.live := by
+  cases op with
+  | engage b sz e =>
+    simp only [mstep] at hs
+    split at hs
+    · cases hs
+    · split at hs
+      · simp only [Option.some.injEq, Prod.mk.injEq] at hs
+        obtain ⟨rfl, _⟩ := hs; exact hc
+      · cases hs
+  | alloc =>
+    simp only [mstep] at hs
+    split at hs
+    · simp only [Option.some.injEq, Prod.mk.injEq] at hs
+      obtain ⟨rfl, _⟩ := hs; exact hc
+    · simp only [Option.some.injEq, Prod.mk.injEq] at hs
+      obtain ⟨rfl, _⟩ := hs; exact List.mem_cons_of_mem _ hc
+  | free c0 =>
+    simp only [mstep] at hs
+    split at hs
+    · simp only [Option.some.injEq, Prod.mk.injEq] at hs
+      obtain ⟨rfl, _⟩ := hs
+      have : c ≠ c0 := fun h => hne (by rw [h])
+      exact (List.mem_erase_of_ne this).2 hc
+    · cases hs
+
+theorem mrunE_zones {ops : List MOp} {s s' : MState} {evs : List Ev} (hr : mrunE s ops = some (s', evs)) :
+    ∀ z ∈ s.zones, z ∈ s'.zones := by
+  induction ops generalizing s evs with
+  | nil => simp only [mrunE, Option.some.injEq, Prod.mk.injEq] at hr; obtain ⟨rfl, _⟩ := hr; exact fun _ h => h
+  | cons op ops ih =>
+    simp only [mrunE] at hr
+    split at hr
+    · cases hr
+    · rename_i s1 ret hs
+      split at hr
+      · cases hr
+      · rename_i x hx
+        simp only [Option.some.injEq, Prod.mk.injEq] at hr
+        obtain ⟨rfl, _⟩ := hr
+        exact fun z hz => ih (by rw [hx]) z (mstep_zones hs z hz)
+
+/-- over a whole history: while no request frees the cell it stays handed out and
+every byte of it keeps its value, whatever zones are engaged and whatever other
+cells are allocated and freed in between -/
+theorem mrunE_frame {ops : List MOp} {s s' : MState} {evs : List Ev} (hi : MInv s)
+    (hr : mrunE s ops = some (s', evs)) (h8 : ∀ z ∈ s'.zones, 8 ≤ z.elemsz)
+    {c : Nat} (hc : c ∈ s.live) (hne : ∀ op ∈ ops, op ≠ .free c) {z : Zone} (hz : z ∈ s.zones)
+    (hzc : InZone z c) {m m' : Mem} (hx : Exec m evs m') :
+    c ∈ s'.live ∧ ∀ x, c ≤ x → x < c + z.elemsz → m' x = m x := by
+  induction ops generalizing s evs m with
+  | nil =>
+    simp only [mrunE, Option.some.injEq, Prod.mk.injEq] at hr
+    obtain ⟨rfl, rfl⟩ := hr
+    simp only [Exec] at hx; subst hx
+    exact ⟨hc, fun _ _ _ => rfl⟩
+  | cons op ops ih =>
+    simp only [mrunE] at hr
+    split at hr
+    · cases hr
+    · rename_i s1 ret hs
+      split at hr
+      · cases hr
+      · rename_i x hx2
+        simp only [Option.some.injEq, Prod.mk.injEq] at hr
+        obtain ⟨rfl, rfl⟩ := hr
+        obtain ⟨m1, ha, hb⟩ := Exec.append hx
+        have hc1 := mstep_keeps_live hs hc (hne op (by simp))
+        have hz1 := mstep_zones hs z hz
+        have h81 : ∀ z ∈ s1.zones, 8 ≤ z.elemsz := fun w hw => h8 w (mrunE_zones (by rw [hx2]) w hw)
+        have hav := mstep_evs_avoid hi hs h81
+        have h1 := Exec.frame ha (fun e he => hav e he c hc hc1 z hz1 hzc)
+        have h2 := ih (mstep_inv hi hs) (by rw [hx2]) hc1 (fun o ho => hne o (by simp [ho])) hz1 hb
+        exact ⟨h2.1, fun y hy1 hy2 => by rw [h2.2 y hy1 hy2, h1 y hy1 hy2]⟩
+
 /-! ### static_object_pool with extra zones and the constructor / destructor ledger -/
 
 structure SXInv (st : Nat) (p : SOPx) : Prop where
